@@ -75,19 +75,18 @@ let () =
   iter_lines stdin (fun l -> lines := l :: !lines);
   let arr = Array.of_list (List.rev !lines) in
   let n = Array.length arr in
-  let cfg = ref { permit = false; has_cb = false; home = None; fix_f7 = true; fix_f14 = true; fix_f7b = false } in
+  let cfg = ref { permit = false; has_cb = false; home = None; fix_f7 = true; fix_f14 = true; fix_f7b = true } in
   let perms = ref [] and dflt = ref true in
-  (* variant 0 = the current tree (fix commits 4d56b95 and b4cfd8a present, F7b open);
-     1 = with the proposed notes/fix_C19_1.diff (F7b); 2 = the flow before 4d56b95 (F7 regression);
-     3 = the flow before b4cfd8a (F14 regression).  They run side by side on the same recorded
-     environment answers. *)
+  (* variant 0 = the tree (fix commits 4d56b95, b4cfd8a, 8230228 present); regression variants:
+     1 = the flow before 8230228 (F7b), 2 = before 4d56b95 (F7), 3 = before b4cfd8a (F14).
+     They run side by side on the same recorded environment answers. *)
   let nv = 4 in
   let sts = Array.make nv st0 in
   let vcfg k = match k with
-    | 0 -> { !cfg with fix_f7 = true; fix_f14 = true; fix_f7b = false }
-    | 1 -> { !cfg with fix_f7 = true; fix_f14 = true; fix_f7b = true }
-    | 2 -> { !cfg with fix_f7 = false; fix_f14 = true; fix_f7b = false }
-    | _ -> { !cfg with fix_f7 = true; fix_f14 = false; fix_f7b = false } in
+    | 0 -> { !cfg with fix_f7 = true; fix_f14 = true; fix_f7b = true }
+    | 1 -> { !cfg with fix_f7 = true; fix_f14 = true; fix_f7b = false }
+    | 2 -> { !cfg with fix_f7 = false; fix_f14 = true; fix_f7b = true }
+    | _ -> { !cfg with fix_f7 = true; fix_f14 = false; fix_f7b = true } in
   let i = ref 0 in
   let take_env () =
     let envs = ref [] and txt = ref [] in
@@ -108,7 +107,7 @@ let () =
      | "case" :: _ -> print_endline line; Array.fill sts 0 nv st0; perms := []; dflt := true
      | ["cfg"; p; cb; hm] ->
        let h = if hm = "none" then None else if hm = "sb" then Some (bytes_of_string (root ^ "/sb")) else Some (hb hm) in
-       cfg := { permit = (p = "1"); has_cb = (cb <> "none"); home = h; fix_f7 = true; fix_f14 = true; fix_f7b = false };
+       cfg := { permit = (p = "1"); has_cb = (cb <> "none"); home = h; fix_f7 = true; fix_f14 = true; fix_f7b = true };
        if cb <> "none" then begin
          perms := List.init (String.length cb) (fun k -> cb.[k] = '1');
          dflt := (cb.[String.length cb - 1] = '1') end;
@@ -151,8 +150,8 @@ let () =
        let ftproot = bytes_of_string (root ^ "/sb" ^ unhex suf) in
        let tg fx = match tight_target fx true (en = "1") (vo = "1") ftproot (hb path) with
          | None -> "target none" | Some t -> "target " ^ hex_of_bytes t in
-       print_endline (tg false);
-       if tg true <> tg false then print_endline ("alt1 " ^ tg true)
+       print_endline (tg true);
+       if tg true <> tg false then print_endline ("alt1 " ^ tg false)
      | ["translate"; hm; p] ->
        (match translate_pure (if hm = "none" then None else Some (hb hm)) (hb p) (z_of_int 260) with
         | None -> print_endline "translate none"
